@@ -405,6 +405,7 @@ def check_evpn_cmp(prog, efv, r):
     The same table whether it is a `match` on the tuple, let-else guards, or a then_with chain."""
     from ..paths import enumerate_paths, PathLimit
     from ..util import view_deep
+    _check_mac_mobility_selector(prog, r)
     if not efv.calls(re.compile(r".*evpn::mac_mobility")):
         r.unanalysable("evpn_type2_cmp no longer calls mac_mobility", efv.loc())
         return
@@ -610,8 +611,30 @@ ORDER_OPS = re.compile(r".*(slice::<impl \[T\]>::(sort|sort_unstable|sort_by|sor
                        r"|.*Iterator::(max|min|max_by|min_by|max_by_key|min_by_key)")
 
 
+DISORDER = re.compile(r".*(Vec::<T, A>::swap_remove|slice::<impl \[T\]>::(swap|reverse|rotate_left|rotate_right|swap_with_slice|fill_with))$")
+
+
 def check_ordering_ops(prog, r):
     """Enumerate sorts / partition_points / min / max whose element type is RibEntry, inside the table crate."""
+    # .. and nothing may shuffle the ranked list behind the comparator's back: the path list is kept sorted by insertion at the
+    # binary-search position and by order-preserving removal (Vec::remove / retain); swap_remove moves the worst path into the
+    # hole, after which new_best() and every later binary search are wrong
+    nd = 0
+    for key, ix in prog.ix.items():
+        if not key.startswith("rustybgp_table::") or "::tests::" in ix["name"]:
+            continue
+        if not any(DISORDER.fullmatch(c["f"].get("name", "")) for c in ix["calls"]):
+            continue
+        fvd = FnView(prog, key)
+        for bi, t in fvd.calls(DISORDER):
+            if "RibEntry" not in t["f"].get("ga", ""):
+                continue
+            nd += 1
+            rootname = prog.name(prog.ix[key].get("root") or key)
+            r.fail(rootname, "order-destroying:" + t["f"]["name"].split("::")[-1], "%s is applied to a ranked path list (Vec<RibEntry>): the list is no longer sorted by the decision order, "
+                   "so the best path and the add-path window depend on the history of withdrawals" % t["f"]["name"].split("::")[-1], fvd.loc(bi))
+    if nd == 0:
+        r.ok("no order-destroying operation (swap_remove / swap / reverse / rotate) on a Vec<RibEntry> in the table crate")
     n = 0
     for key, ix in prog.ix.items():
         if not key.startswith("rustybgp_table::"):
@@ -908,3 +931,39 @@ def _flows_to_return(fv, l):
                 if p and p["l"] == l:
                     return True
     return False
+
+
+def _check_mac_mobility_selector(prog, r):
+    """The sequence number that ranks EVPN type-2 routes is read from the MAC Mobility extended community only: type 0x06 *and*
+    sub-type 0x00 (RFC 7432 7.7).  The other EVPN communities share the type octet (ESI Label 0x01, ES-Import 0x02, Router's MAC
+    0x03); reading their payload as a sequence number ranks paths by garbage."""
+    from ..cfg import flat_guards
+    ks = prog.find(r"rustybgp_packet::evpn::mac_mobility")
+    if len(ks) != 1:
+        r.unanalysable("evpn::mac_mobility anchor matched %d" % len(ks))
+        return
+    r.analysed(prog.name(ks[0]))
+    sites = 0
+    for kk in prog.with_closures(ks[0]):
+        fv = FnView(prog, kk)
+        brs = branches(fv, Renderer(fv, depth=10, through_names=True))
+        for bi, si, st in fv.aggregates(None, "Some"):
+            if not any(x.get("r") == "agg" for x in [st["rv"]]) or "u32" not in fv.f["locals"][st["p"]["l"]]:
+                continue
+            sites += 1
+            pairs = set()
+            for g, l, h in flat_guards(fv, bi, brs):
+                if g[0] == "bin" and g[1] in ("Eq", "Ne") and ((g[1] == "Eq") == (l == {"true"})):
+                    for a, b in ((g[2], g[3]), (g[3], g[2])):
+                        a = strip(a)
+                        if a[0] == "index" and strip(a[2])[0] == "const" and strip(b)[0] == "const":
+                            pairs.add((strip(a[2])[1], strip(b)[1]))
+                        if a[0] == "call" and a[1].endswith("Index::index") and strip(a[2][1])[0] == "const" and strip(b)[0] == "const":
+                            pairs.add((strip(a[2][1])[1], strip(b)[1]))
+            if {(0, 6), (1, 0)} <= pairs:
+                r.ok("mac_mobility: the sequence number is read only under type octet 0x06 and sub-type octet 0x00")
+            else:
+                r.fail(prog.name(ks[0]), "mac-mobility-selector", "mac_mobility() yields a sequence number under the octet tests %s; it must require type 0x06 (octet 0) and sub-type 0x00 (octet 1): "
+                       "otherwise ESI Label / ES-Import / Router's MAC communities are read as MAC Mobility and EVPN type-2 paths are ranked by their payload" % sorted(pairs), fv.loc(bi))
+    if sites == 0:
+        r.unanalysable("mac_mobility: no `Some((seq, sticky))` result found", FnView(prog, ks[0]).loc())
